@@ -163,7 +163,7 @@ func (s *Sched) Run(workers []func(), choices []int) error {
 			if unfinished == 0 {
 				break
 			}
-			if ev.worker == cur || state[cur] != wsRunning {
+			if cur < 0 || ev.worker == cur || state[cur] != wsRunning {
 				nx := nextParked(ev.worker, choice())
 				if nx >= 0 {
 					cur = nx
